@@ -699,6 +699,9 @@ func TestScenarios(t *testing.T) {
 			for _, e := range evs {
 				if d := e.at - hx.SinceEpoch(); d > 0 {
 					time.Sleep(d)
+				} else {
+					// events that fell due while a slow reload was running: never two at one instant
+					time.Sleep(time.Duration(3+len(e.kind)) * time.Millisecond)
 				}
 				synctest.Wait()
 				switch e.kind {
